@@ -208,6 +208,26 @@ fn run_fn(name: &str, f: &[Vec<u8>]) -> (String, Vec<Vec<u8>>) {
                 let sig = syn::parse_str::<syn::Signature>(&arg(0)).expect("not a signature");
                 vec![crate::model::to_string_wide(&sig).into_bytes()]
             }
+            "live_args" => {
+                // C07: a signature text `fn f(<params>)` through if_args_and_clean_pats + get_live_args_and_sig:
+                // one field "ident\ttype" per typed argument of the handle method
+                let mut sig = syn::parse_str::<syn::Signature>(&arg(0)).expect("signature does not parse");
+                let _ = crate::model::method::if_args_and_clean_pats(&mut sig);
+                let (args, _sig) = crate::model::method::get_live_args_and_sig(&sig);
+                args.iter().map(|a| match a {
+                    syn::FnArg::Typed(pt) => { let (p, t) = (&pt.pat, &pt.ty); format!("{}\t{}", quote::quote!{#p}, quote::quote!{#t}).into_bytes() }
+                    _ => b"?".to_vec(),
+                }).collect()
+            }
+            "sig_string" => {
+                // C07: how rustc prints a signature's token stream (line breaks included); no crate logic involved
+                let sig = syn::parse_str::<syn::Signature>(&arg(0)).expect("signature does not parse");
+                vec![quote::quote!{#sig}.to_string().into_bytes()]
+            }
+            "type_string" => {
+                let ty = syn::parse_str::<syn::Type>(&arg(0)).expect("type does not parse");
+                vec![quote::quote!{#ty}.to_string().into_bytes()]
+            }
             _ => panic!("unknown fn job {}", name),
         }
     }));
